@@ -63,7 +63,7 @@ ASSUMPTIONS = [
     "the retained as-shipped variant of the TTL decision point (strict = false) is kept in the model only to state what the repair 62699df changed; the check probes the working tree and demands correspondence with the current variant",
 ]
 LEVEL = {
-    "text": "Lean 4 theorems over an executable model of dns/tsig.py, the TSIG RDATA codec, Message.use_tsig, the signing tail of Message.to_wire / Renderer._write_tsig and the TSIG part of dns.message._WireReader (Key, dict and callable keyrings), HMAC being an arbitrary function: (1) the regenerated algorithm table is exactly RFC 8945 section 6; (2) the octets fed to the MAC equal an independently written RFC 8945 4.3 / 5.3.1 composition for requests, responses bound to a request MAC, and every signed envelope of an exchange with any subset of unsigned intermediates; (3) sign-render-read: for every algorithm of the table a message signed by the model of to_wire is accepted by validate and by the reader with the same key anywhere in the fudge window, the reader reports the TSIG written and the body signed and hands on the signer's context, and a whole multi-message exchange with any pattern of signed/unsigned envelopes is accepted; (4) the complete rejection decision list, misplaced TSIG = BadTSIG; (5) request-MAC binding; (6) acceptance is sound for every keyring, the MAC input determines every RFC 8945 digest component (message from octet 2, canonical names, times, error, other), hence every single-bit alteration is rejected, or changes the (input, MAC) pair, or lies in the ID / the encodings of the two names with all digest components unchanged; with the TTL repair in, the TTL field is covered; (7) the reader's name decoding equals C01's fromWireAux, and the compressed TSIG owner name written by C01's toWireC against any sound table is accepted by the reader (sign_then_read_compressed). Routes driven: Message.use_tsig/to_wire (first and second rendering), Renderer.add_tsig/add_multi_tsig, make_response, from_wire with Key/dict/callable/True/False keyrings, continue_on_error, tsigkeyring text forms, dns.tsig.sign/validate/_digest directly. Tied to the code by a differential check of the exact octets passed to update(), of every outcome and of the verdict on every single-bit alteration of ~70 signed messages per run; an independent RFC 1035/8945 reference recomputes every MAC with Python's hmac and judges every alteration.",
+    "text": "Lean 4 theorems over an executable model of dns/tsig.py, the TSIG RDATA codec, Message.use_tsig, the signing tail of Message.to_wire / Renderer._write_tsig and the TSIG part of dns.message._WireReader (Key, dict and callable keyrings), HMAC being an arbitrary function: (1) the regenerated algorithm table is exactly RFC 8945 section 6; (2) the octets fed to the MAC equal an independently written RFC 8945 4.3 / 5.3.1 composition for requests, responses bound to a request MAC, and every signed envelope of an exchange with any subset of unsigned intermediates; (3) sign-render-read: for every algorithm of the table a message signed by the model of to_wire is accepted by validate and by the reader with the same key anywhere in the fudge window, the reader reports the TSIG written and the body signed and hands on the signer's context, and a whole multi-message exchange with any pattern of signed/unsigned envelopes is accepted; (4) the complete rejection decision list, misplaced TSIG = BadTSIG; (5) request-MAC binding; (6) acceptance is sound for every keyring, the MAC input determines every RFC 8945 digest component (message from octet 2, canonical names, times, error, other), hence every single-bit alteration is rejected, or changes the (input, MAC) pair, or lies in the ID / the encodings of the two names with all digest components unchanged; with the TTL repair in, the TTL field is covered; (7) the reader's name decoding equals C01's fromWireAux, and the compressed TSIG owner name written by C01's toWireC against any sound table is accepted by the reader (sign_then_read_compressed); (8) with ignore_trailing an unsigned envelope is digested as the message only and a whole exchange with trailing octets after any envelope is accepted (unsigned_envelope_digests_message_only, sign_then_read_exchange_trailing; repair 1f3fc58). Routes driven: Message.use_tsig/to_wire (first and second rendering), Renderer.add_tsig/add_multi_tsig, make_response, from_wire with Key/dict/callable/True/False keyrings, continue_on_error, tsigkeyring text forms, dns.tsig.sign/validate/_digest directly. Tied to the code by a differential check of the exact octets passed to update(), of every outcome and of the verdict on every single-bit alteration of ~70 signed messages per run; an independent RFC 1035/8945 reference recomputes every MAC with Python's hmac and judges every alteration.",
     "note": "Trusted: Lean kernel + propext/Classical.choice/Quot.sound; the statements in lean/Props/C14.lean; the harness generators and the independent reference in harness/props/C14.py; Python hmac/hashlib. HMAC strength appears only as explicit hypotheses. Skeleton reader (other records skipped). The TTL finding is repaired in /repo (62699df); the as-shipped variant is retained in the model only for ttl_bit_accepted_in_asShipped_variant.",
     "technique": "Lean 4 proof (byte-composition equality, decision logic, injectivity of a self-delimiting encoding incl. prefix-freeness of wire names, codec round trips, positional analysis of single-bit flips) + model-vs-implementation correspondence with recorded MAC input + independent-reference oracle",
     "design_ref": "DESIGN.md §7 C14",
@@ -1041,9 +1041,15 @@ def eval_seq(ctx, c, rep):
         tag = "+".join(k for k, v in dict(opts, continue_on_error=coe).items() if v) or "defaults"
         vctx = None
         for i, w in enumerate(wires):
-            # with ignore_trailing, actual trailing octets after a signed envelope (the TSIG RR marks its end)
-            ww = w + b"\x00\xff" if (opts["ignore_trailing"] and envs[i]["signed"] and (combo + i) % 3 == 0) else w
-            m2, e, _ = lib_read(ww, key, now + i, rm, vctx, True, coe=coe, opts=opts)
+            # with ignore_trailing, actual trailing octets after the envelope, signed or not: they are no part of the
+            # message, so neither validated nor (unsigned envelope, repair 1f3fc58) digested into the running context
+            junk = [b"\x00\xff", b"\x00", bytes(range(40)), w[:13]][(combo + i) % 4]
+            ww = w + junk if (opts["ignore_trailing"] and (combo + i) % 3 != 1) else w
+            line_in = e_ctx(vctx)
+            m2, e, log = lib_read(ww, key, now + i, rm, vctx, True, coe=coe, opts=opts)
+            if combo == 1:
+                ctx.corr(f"c14.readi 1 {hx(ww)} {e_keyring(key)} {now + i} {hx(rm)} {line_in} 1 {STRICT['v']} {e_h(log)}",
+                         read_line(m2, e, log), c)
             if e is not None:
                 fail(ctx, "C14/validate/genuine-sequence-rejected/options",
                      f"envelope {i} of a genuine {len(envs)}-envelope exchange (signed: {pattern}, signer {signer}) is rejected when read with {tag}: {e!r}",
